@@ -117,7 +117,7 @@ deriving Repr, Inhabited
 
 /-- the detached container travelling with a request -/
 inductive Payload where
-  | metrics (t : MTable) (touched : Bool)
+  | metrics (t : MTable) (touched : Bool) (orig : MTable)   -- `orig`: the table the rename rules were applied to
   | events (r : Res)
   | errors (a : Array Ev)
   | slow (l : List Slow)
@@ -274,7 +274,7 @@ structure HArgs where
 deriving Repr, Inhabited
 
 def Payload.isEmpty : Payload → Bool
-  | .metrics t touched => t.isEmpty && !touched
+  | .metrics t touched _ => t.isEmpty && !touched
   | .events r => r.evs.isEmpty
   | .errors a => a.isEmpty
   | .slow l => l.isEmpty
@@ -335,7 +335,7 @@ def harvestAllPart (s : PState) (runId : String) (run : RunM) (app : AppM) (cfg 
   let hf := createFinalMetrics h
   let mt := applyRulesM hf.metrics a.rules
   let (s, reqs) := considerMany s a
-    ([(.metrics, .metrics mt hf.touched), (.customEv, .events h.custom), (.errorEv, .events h.errEv),
+    ([(.metrics, .metrics mt hf.touched hf.metrics), (.customEv, .events h.custom), (.errorEv, .events h.errEv),
       (.errors, .errors h.errors), (.slowSql, .slow h.slow), (.traces, .traces h.trSyn h.trForce h.trReg)] ++
      txnPayloads a.split h.txn ++
      [(.spanEv, .events h.span), (.logEv, .events h.log), (.packages, .pkgs newPk)])
@@ -370,7 +370,7 @@ def harvestTypesPart (s : PState) (runId : String) (run : RunM) (app : AppM) (cf
   let app' := if isDefault then { app with seenPkgs := seen' } else app
   let acc : HAcc := { s := s, h := h }
   let acc := evStep acc a isDefault
-    [(.metrics, .metrics mt hf.touched), (.errors, .errors h.errors), (.slowSql, .slow h.slow),
+    [(.metrics, .metrics mt hf.touched hf.metrics), (.errors, .errors h.errors), (.slowSql, .slow h.slow),
      (.traces, .traces h.trSyn h.trForce h.trReg), (.packages, .pkgs newPk)]
     (fun h => { h with metrics := MTable.new MaxMetrics, touched := false, errors := #[], slow := [],
                        trReg := #[], trForce := #[], trSyn := #[], pkgs := none, commands := 0, pids := [] })
@@ -532,7 +532,8 @@ def shutdownRun (s : PState) (r : String) : PState := delRun s r
 
 def failedHarvest (h : HarvestM) (p : Payload) (cat : Cat) : HarvestM :=
   match cat, p with
-  | .metrics, .metrics tbl wasTouched =>
+  | .metrics, .metrics _ wasTouched tbl =>
+    -- the names go back as the agents reported them: the rules are applied to the next harvest as a whole when it is sent
     let merged := MTable.mergeFailed FailedMetricAttemptsLimit h.metrics tbl
     { h with metrics := merged,
              touched := h.touched || (wasTouched && decide (tbl.failed + 1 ≤ FailedMetricAttemptsLimit)) }
